@@ -228,6 +228,8 @@ def emit_mapper(m):
 def emit_class(c):
     names = [fd["name"] for fd in c["fields"]]
     req = names if c.get("required") is None else [r for r in c["required"]]
+    # typedpy keeps a field that has a default out of the class's _required list
+    req = [r for r in req if not any(fd["name"] == r and fd.get("default") is not None for fd in c["fields"])]
     fds = ["{| f_name := %s; f_ty := %s; f_default := %s |}" % (
         E.pstr(fd["name"]), emit_tf(fd["ty"]), E.opt(fd.get("default"), E.pval)) for fd in c["fields"]]
     return ("{| t_name := %s; t_fields := %s; t_required := %s; t_additional := %s; t_ignore_none := %s; "
